@@ -28,6 +28,16 @@ def custom_name(E, name='custom'):
     return n
 
 
+def reset_list(obj, attr):
+    """havoc helper: the list the parse loop appends to is emptied IN PLACE, so that a local alias of it in the code under
+    contract (`tags = self.tags = []`) keeps referring to the same object"""
+    cur = obj.attrs.get(attr)
+    if isinstance(cur, list):
+        del cur[:]
+    else:
+        obj.attrs[attr] = []
+
+
 def beq(E, a, b, tag='b'):
     return M.b_eq_goal(E, a, b, tag)
 
@@ -243,7 +253,7 @@ def tagging_parse_step(E):
 
     def havoc(ctx):
         ctx.set_local('offset', mk_int(pre.len_term()), *OFFSET)
-        ctx.self.attrs['tags'] = []
+        reset_list(ctx.self, 'tags')
 
     def inv(ctx):
         if ctx.phase == 'entry':
@@ -323,7 +333,7 @@ def stream_data_mimetypes_step(E):
 
     def havoc(ctx):
         ctx.set_local('offset', mk_int(pre.len_term()), *OFFSET)
-        ctx.self.attrs['data_encodings'] = []
+        reset_list(ctx.self, 'data_encodings')
 
     def inv(ctx):
         if ctx.phase == 'entry':
@@ -426,7 +436,7 @@ def composite_parse_step(E):
 
     def havoc(ctx):
         ctx.set_local('offset', mk_int(pre.len_term()), *OFFSET)
-        ctx.self.attrs['items'] = []
+        reset_list(ctx.self, 'items')
 
     def inv(ctx):
         if ctx.phase == 'entry':
